@@ -160,6 +160,12 @@ Definition build_kind (k : kind) (v2l l2v : list nat) (f : cfun) : option (snap 
   | _ => None
   end.
 
+(** the hypothesis of the node-count theorems as a checker for real snapshots:
+    a well-formed table of one of the three Boolean kinds with that kind's
+    terminals ([bdd_ok_b], [bcok_b], [zbdd_ok_b] of DD/Apply.v, DD/ApplyBcdd.v,
+    DD/ZbddOps.v) *)
+Definition bool_kind_ok_b (s : snap) : bool := bdd_ok_b s || bcok_b s || zbdd_ok_b s.
+
 (** the value of a handle as a Boolean function of the choice ([false] where
     the interpretation is undefined, which does not happen on a well-formed
     table) *)
